@@ -537,7 +537,8 @@ pub fn judge_c10(info: &Info, log: &RunLog, rep: &mut Report) {
                 Some(e) if e <= c_t + b + bp => rep.count("c10_checked:peer-ended"),
                 _ => rep.violate("cancel-peer-does-not-end", format!("{}", history_shape(&d, info, peer, 0)), &info.case, w("the peer of the cancelled entity was reachable but its transaction did not end")),
             }
-            if rs.is_none() && t.mode == ack() && !faulted_before {
+            // (in unacknowledged mode only a sender-side cancel can be signalled: its EOF(cancel) is retransmitted)
+            if rs.is_none() && (t.mode == ack() || who == t.src) && !faulted_before {
                 if has_cancel_cond(peer) {
                     rep.count("c10_checked:peer-reports-cancel");
                 } else {
